@@ -14,7 +14,13 @@ THEOREMS = ["C08.dispatch_total", "C08.shipped_load_ok", "C08.shipped_star_only"
             # C08d: the numeric sites are impossible on bounded data: quantize_total has no remaining disjunct
             "C08.zpScale1_total", "C08.zpScale_total", "C08.uniformQuantize_total", "C08.quantize_own_total", "C08.quantizeBias_total",
             "C08.f16_total", "C08.numericOK_of_bounded", "C08.generate_total", "C08.quantize_total", "C08.ema_ordered",
-            "C08.stats_bounded_of_calibration", "C08.Inst.bounded", "C08.InstB.quantize_ok"]
+            "C08.stats_bounded_of_calibration", "C08.Inst.bounded", "C08.InstB.quantize_ok",
+            # C08e: the statistics a user really has in hand -- any list of (subgraph, samples) sessions incl. resumed ones and several
+            # signatures, statistics that went through json (.exact format) -- are bounded and complete: quantizePure returns a model
+            "C08.sessions_invariant", "C08.sessions_stats_good", "C08.sessions_subgraph_complete", "C08.sessions_stats_complete",
+            "C08.ema_ordered_any", "C08.quantize_total_of_sessions", "C08.quantize_total_of_fresh_sessions", "C08.zpScale1_total_exact",
+            "C08.statGood_exact", "C08.quantize_total_restored", "C08.restored_resumable", "C08.fixRank_calibrated", "C08.concat_of_rank",
+            "C08.fixRank_expand_fails", "C08.Inst2.quantize_ok", "C08.Inst2.restored_ok", "C08.Inst2.quantize_runs", "C08.Inst2.rank1_stat_fails"]
 
 
 def gen_dynamic_batch(rng, i):
@@ -61,7 +67,7 @@ def run(ctx):
                        "function with a legal mode for every operator name (shipped_resolution, shipped_coverage, kernel evaluation over the "
                        "regenerated tables). Not proved: that the numeric primitives succeed on finite, ordered data (NumericOK stays a "
                        "hypothesis); covered by execution over all shipped recipes x generated models.")
-    common.proof_side(ctx, THEOREMS, modules=["QProps.C08", "QProps.C08b", "QProps.C08c", "QProps.C08d"])
+    common.proof_side(ctx, THEOREMS, modules=["QProps.C08", "QProps.C08b", "QProps.C08c", "QProps.C08d", "QProps.C08e"])
     drv = common.Driver()
 
     def per_case(case, res):
